@@ -64,6 +64,9 @@ func propertyByID(id string, st *harness.Stats) harness.Property {
 }
 
 func main() {
+	if os.Getenv("CRDSIM_GROWTH") != "" {
+		harness.GrowthTrace = func(l string) { fmt.Fprintln(os.Stderr, "growth:", l) }
+	}
 	if len(os.Args) < 2 {
 		fmt.Fprintln(os.Stderr, "usage: crdsim check <id> <quick|thorough> | replay <file> | selftest | instrument-report")
 		os.Exit(2)
@@ -265,6 +268,7 @@ func writeEvidence(verif string, p harness.Property, e *harness.Env, st *harness
 		"trivial_processes":             st.Trivial,
 		"processes_per_hour":            int64(perHour),
 		"seeds":                         []uint64{seed},
+		"simulated_time_seconds":        map[string]any{"total": float64(e.SimUsSum) / 1e6, "of_which_clock_jumps_over_blocked_tasks": float64(e.JumpUsSum) / 1e6, "unit": "1 tick of the logical clock = 1 simulated microsecond; waiting (slow sources, timers) advances the clock by jumps"},
 		"simulated_time_ticks":          map[string]any{"total": e.TicksSum, "max_per_process": e.TicksMax, "min_hang_budget_over_max": budgetRatio, "needed_stage2": st.Stage2},
 		"faults_fired":                  st.FaultFired,
 		"faults_configured":             st.FaultConf,
